@@ -1672,6 +1672,11 @@ class Exec:
         return None
 
     def seq_at(self, seq: SSeq, i):
+        inner = getattr(seq, "inner", None)
+        if inner is not None:   # enumerate(seq, start): element i is (start + i, seq[i])
+            start = getattr(seq, "start", 0)
+            idx = self.binop(ast.Add(), start, SInt(i) if not isinstance(i, int) else i)
+            return (idx, self.seq_at(inner, i))
         if getattr(seq, "rev", False):
             i = z3.Length(seq.t) - 1 - i
         if seq.elem == "char":
@@ -1887,6 +1892,8 @@ class Exec:
             if old is not None:
                 break
             f = f.parent
+        if old is None:
+            old = getattr(self, "entry_old", None)   # loop invariants: the entry state of the function under contract
         if old is None:
             raise Unsupported("old() outside a contract")
         fr = Frame(frame.mod, locals_=dict(old), fname=frame.fname)
